@@ -1161,6 +1161,107 @@ def _s_dev(tr, s, rest, env, tail):
         return tr.wrap(ek + ex, f'let {dn} := dict_append {tk} {tx} {dn} in {tr.T(rest, env, tail)}')
 
 
+# ---- LaserPath.export / helpers.load_parameters (C19): where a file is written / read, how DEFAULT is merged
+_PA_OPEN_W = "With(items=[withitem(context_expr=Call(func=Name(id='open'), args=[Name(id='fn'), Constant(value='wb')], keywords=[]), optional_vars=Name(id='p'))]"
+_PA_OPEN_R = ("With(items=[withitem(context_expr=Call(func=Name(id='open'), args=[Name(id='fp')], keywords=[keyword(arg='mode', value=Constant(value='rb'))]), "
+              "optional_vars=Name(id='f'))], body=[Assign(targets=[Name(id='config')], value=Call(func=Attribute(value=Name(id='yaml'), "
+              "attr='safe_load'), args=[Name(id='f')], keywords=[]))])")
+_PA_POP = ("Try(body=[Assign(targets=[Name(id='default_dict')], value=Call(func=Attribute(value=Name(id='config'), attr='pop'), "
+           "args=[Constant(value='DEFAULT')], keywords=[]))], handlers=[ExceptHandler(type=Name(id='KeyError'), body=[Assign(targets=["
+           "Name(id='default_dict')], value=Dict(keys=[], values=[]))])], orelse=[], finalbody=[])")
+_PA_DUMP = ("[If(test=Name(id='as_dict'), body=[Expr(value=Call(func=Attribute(value=Name(id='dill'), attr='dump'), args=[Attribute(value=Name(id='self'), "
+            "attr='__dict__'), Name(id='p')], keywords=[]))], orelse=[Expr(value=Call(func=Attribute(value=Name(id='dill'), attr='dump'), "
+            "args=[Name(id='self'), Name(id='p')], keywords=[]))])")
+
+
+def _h_pa(tr, e, env):
+    if isinstance(e, ast.Call) and not e.keywords and len(e.args) == 1:
+        if dump(e.func) == "Attribute(value=Name(id='pathlib'), attr='Path')":
+            eff, t = tr.E(e.args[0], env)
+            return eff, f'(path_of {t})'
+        if isinstance(e.func, ast.Attribute) and e.func.attr == 'with_suffix' and isinstance(e.func.value, ast.Name) \
+                and isinstance(e.args[0], ast.Constant) and isinstance(e.args[0].value, str):
+            return [], f'(p_with_suffix {cname(e.func.value.id)} {cstr(e.args[0].value)})'
+        if isinstance(e.func, ast.Name) and e.func.id == 'dict' and isinstance(e.args[0], ast.Subscript) \
+                and isinstance(e.args[0].value, ast.Name) and isinstance(e.args[0].slice, ast.Name):
+            v = env.fresh('item')
+            return [(v, f'(doc_get {cname(e.args[0].value.id)} {cname(e.args[0].slice.id)})')], f'(dict_copy {v})'
+    if isinstance(e, ast.Attribute) and e.attr == 'suffix' and isinstance(e.value, ast.Name):
+        return [], f'(p_suffix {cname(e.value.id)})'
+    if isinstance(e, ast.Call) and isinstance(e.func, ast.Attribute) and e.func.attr == 'keys' and isinstance(e.func.value, ast.Name) \
+            and not e.args and not e.keywords:
+        return [], f'(dkeys {cname(e.func.value.id)})'
+    if isinstance(e, ast.Dict) and len(e.keys) == 2 and e.keys == [None, None] and all(isinstance(v, ast.Name) for v in e.values):
+        return [], f'(dict_merge {cname(e.values[0].id)} {cname(e.values[1].id)})'          # {**a, **b}
+
+
+def _s_pa(tr, s, rest, env, tail):
+    d = dump(s)
+    if d.startswith(_PA_OPEN_W) and isinstance(s, ast.With):
+        body = '[' + dump(s.body[0])
+        if not (body == _PA_DUMP and len(s.body) == 2 and dump(s.body[1]).startswith("Expr(value=Call(func=Name(id='print')")):
+            raise Unsupported('LaserPath.export: body of `with open(fn, "wb")`')
+        return f'open_write fn ;;; {tr.T(rest, env, tail)}'
+    if d == _PA_OPEN_R:
+        return f'config <- yaml_load fs__ fp ;; {tr.T(rest, env, tail)}'
+    if d == _PA_POP:
+        return f"let '(default_dict, config) := pop_default_key config in {tr.T(rest, env, tail)}"
+
+
+def translate_persist(src_dir: str) -> str:
+    global METHODS, CFG_ATTRS, STATE_ATTRS, ORACLES, CFG_TYPE, LOCAL_ELT, EXTRA_PARAMS, MONAD, EXPR_HOOKS, STMT_SKIP, RECEIVERS, STMT_HOOKS
+    saved = (METHODS, CFG_ATTRS, STATE_ATTRS, ORACLES, CFG_TYPE, LOCAL_ELT, EXTRA_PARAMS, MONAD, EXPR_HOOKS, STMT_SKIP, RECEIVERS, STMT_HOOKS)
+    out = [PURE_PREAMBLE % ('laserpath.py, helpers.py', ' Persist.Paths', 'PaState')]
+    try:
+        CFG_ATTRS, STATE_ATTRS, ORACLES = set(), {}, {}
+        CFG_TYPE, LOCAL_ELT, MONAD = 'unit', {}, 'MPa'
+        EXPR_HOOKS, STMT_SKIP, RECEIVERS, STMT_HOOKS = [_h_pa], [], {'self'}, [_s_pa]
+        mod = ast.parse(pathlib.Path(src_dir, 'laserpath.py').read_text())
+        cls = [n for n in mod.body if isinstance(n, ast.ClassDef) and n.name == 'LaserPath']
+        if len(cls) != 1:
+            raise Unsupported('class LaserPath not found')
+        METHODS, EXTRA_PARAMS = {'export': ('method', [('filename', 'string'), ('as_dict', 'bool')], 'unit')}, ''
+        out.append(Tr(cls[0]).method('export') + '\n')
+        mod = ast.parse(pathlib.Path(src_dir, 'helpers.py').read_text())
+        funs = [n for n in mod.body if isinstance(n, ast.FunctionDef) and n.name == 'load_parameters']
+        if len(funs) != 1:
+            raise Unsupported('helpers.load_parameters not found')
+        METHODS, EXTRA_PARAMS = {'load_parameters': ('method', [('param_file', 'string')], 'list dict')}, '(fs__ : string -> option doc) '
+        out.append(Tr(ast.ClassDef(name='helpers', bases=[], keywords=[], body=funs, decorator_list=[])).method('load_parameters') + '\n')
+        # from_dict of LaserPath and TrenchColumn (PGMCompiler.from_dict passes the dictionary on unfiltered): cls(**{k: v for k, v in param.items() if k in inspect.signature(cls).parameters})
+        for fname, cname_, tag in (('laserpath.py', 'LaserPath', 'lp'), ('trench.py', 'TrenchColumn', 'tc')):
+            mod = ast.parse(pathlib.Path(src_dir, fname).read_text())
+            cls = [n for n in mod.body if isinstance(n, ast.ClassDef) and n.name == cname_]
+            fd = [n for n in (cls[0].body if cls else []) if isinstance(n, ast.FunctionDef) and n.name == 'from_dict']
+            if len(fd) != 1:
+                raise Unsupported(f'{cname_}.from_dict not found')
+            f = fd[0]
+            body = [st for st in f.body if not (isinstance(st, ast.Expr) and isinstance(st.value, ast.Constant) and isinstance(st.value.value, str))]
+            if ([dump(x) for x in f.decorator_list] != ["Name(id='classmethod')"] or [a.arg for a in f.args.args] != ['cls', 'param']
+                    or f.args.vararg or f.args.kwarg or f.args.kwonlyargs or len(body) != 1 or not isinstance(body[0], ast.Return)):
+                raise Unsupported(f'{cname_}.from_dict: signature / shape')
+            r = body[0].value
+            ok = (isinstance(r, ast.Call) and dump(r.func) == "Name(id='cls')" and not r.args and len(r.keywords) == 1 and r.keywords[0].arg is None
+                  and isinstance(r.keywords[0].value, ast.DictComp))
+            if ok:
+                dc = r.keywords[0].value
+                g = dc.generators
+                ok = (len(g) == 1 and not g[0].is_async and isinstance(dc.key, ast.Name) and isinstance(dc.value, ast.Name)
+                      and dump(g[0].target) == f"Tuple(elts=[Name(id='{dc.key.id}'), Name(id='{dc.value.id}')])"
+                      and dump(g[0].iter) == "Call(func=Attribute(value=Name(id='param'), attr='items'), args=[], keywords=[])"
+                      and len(g[0].ifs) == 1
+                      and dump(g[0].ifs[0]) == (f"Compare(left=Name(id='{dc.key.id}'), ops=[In()], comparators=[Attribute(value=Call(func=Attribute("
+                                                "value=Name(id='inspect'), attr='signature'), args=[Name(id='cls')], keywords=[]), attr='parameters')])"))
+            if not ok:
+                raise Unsupported(f'{cname_}.from_dict: {dump(r)[:200]}')
+            out.append(f"(* {cname_}.from_dict: the keyword arguments the constructor is called with; sig__ = inspect.signature(cls).parameters *)\n"
+                       f"Definition src_from_dict_{tag} (sig__ : list string) (param : dict) : dict :=\n"
+                       f"  filter (fun kv => existsb (String.eqb (fst kv)) sig__) param.\n\n")
+    finally:
+        METHODS, CFG_ATTRS, STATE_ATTRS, ORACLES, CFG_TYPE, LOCAL_ELT, EXTRA_PARAMS, MONAD, EXPR_HOOKS, STMT_SKIP, RECEIVERS, STMT_HOOKS = saved
+    return ''.join(out)
+
+
 # ---- helpers.flatten / helpers.nest_level (C16): recursive functions, translated with the recursive call as a parameter
 _HL_ISLIST = ("BoolOp(op=And(), values=[Call(func=Name(id='isinstance'), args=[Name(id='x'), Tuple(elts=[Name(id='list'), Name(id='tuple')])], "
               "keywords=[]), UnaryOp(op=Not(), operand=Call(func=Name(id='isinstance'), args=[Name(id='x'), Tuple(elts=[Name(id='str'), "
@@ -1363,6 +1464,8 @@ def main(argv):
                 name, text = g, translate_writers(str(src_dir))
             elif g == 'SrcAe.v':
                 name, text = g, translate_append_extend(str(src_dir))
+            elif g == 'SrcPa.v':
+                name, text = g, translate_persist(str(src_dir))
             elif g == 'SrcHl.v':
                 name, text = g, translate_helpers(str(src_dir))
             elif g == 'SrcDev.v':
